@@ -248,6 +248,14 @@ def run(ctx, mod, args):
                     v.what = "[corpus %s] %s" % (f, v.what)
                 violations += vs
 
+    # cross-operation sessions (lib/session.py) run in their own fresh interpreters while the tie does
+    sess = getattr(mod, "SESSION", None)
+    sess_handle = None
+    if sess:
+        from .lib import session
+
+        sess_handle = session.start(ctx, **sess)
+
     divergences = mod.tie(ctx)
     ctx.note("tie: %d evaluations, %d divergences" % (ctx.evaluations, len(divergences)))
 
@@ -256,11 +264,8 @@ def run(ctx, mod, args):
 
     # cross-operation sessions (lib/session.py): the property's own operations interleaved with all
     # the others on objects derived from one another, in one long-lived interpreter
-    sess = getattr(mod, "SESSION", None)
-    if sess:
-        from .lib import session
-
-        vs = session.run(ctx, Violation, **sess)
+    if sess_handle is not None:
+        vs = session.finish(ctx, Violation, sess_handle)
         ctx.note("sessions: %d operations, %d failures" % (ctx.hist.get("session:ops", 0), len(vs)))
         violations += vs
 
